@@ -160,7 +160,7 @@ def st_history(draw, cfg, kinds=None, depth=None, nops=(1, 3)):
         "key": draw(st.integers(0, 2**31 - 1)),
         "flag_repr": draw(st.sampled_from(cfg.get("flag_reprs", ["arr", "py"]))),
         "idx_repr": draw(st.sampled_from(cfg.get("idx_reprs", ["arr", "py"]))),
-        "init": {"kind": draw(st.sampled_from(cfg.get("inits", ["simulate", "importance"]))), "picks": draw(st_picks(3)), "style": draw(st.sampled_from(["or", "arr"]))},
+        "init": {"kind": draw(st.sampled_from(cfg.get("inits", ["simulate", "importance"]))), "picks": draw(st_picks(3)), "xpicks": draw(st_picks(2)), "style": draw(st.sampled_from(["or", "arr"]))},
     }
     n = draw(st.integers(*nops))
     ops = []
@@ -326,11 +326,21 @@ def start(case, checks, ctx=None):
         probe = s.gf.simulate(k0, s.jargs)
         prun, _ = gfi.check_trace_against_model(probe, s.node, s.nargs, {}, "init-simulate:", case, Violation, allow_fresh=True)
         casg = constraint_from_picks(prun, init.get("picks", []))
+        # also constrain addresses this execution does not visit (masked-off code, other branches): no effect expected
+        unv = [(p, n) for p, n in gfi.all_paths(s.node) if p not in prun.dist_info and n not in ("uniform", "categorical")]
+        for i, u in init.get("xpicks", []):
+            if unv:
+                p, n = unv[i % len(unv)]
+                casg[p] = gfi.value_for(n, None, u)
         chm = gfi.build_chm(casg, style=init.get("style", "or"))
         s.tr, w = s.gf.importance(k0, chm, s.jargs)
         s.run, fresh = gfi.check_trace_against_model(s.tr, s.node, s.nargs, dict(casg), "init-importance:", case, Violation, allow_fresh=True)
         s.init_constraint = casg
         s.init_weight = gfi.fval(w)
+        # importance weight = log-density of exactly the constrained choices the execution visits
+        exp_w = sum(lp for (p, _v, lp) in s.run.terms if p in casg)
+        if not gfi.close(s.init_weight, exp_w, gfi.score_tol(s.run)):
+            raise Violation("init-importance:weight", f"importance weight {s.init_weight!r} != sum of the log-densities of the constrained choices {exp_w!r}", case)
     s.asg = s.run.assignment()
     return s
 
